@@ -760,6 +760,14 @@ fn run_reader_prop(ctx: &Ctx, prop: Prop, lit: (usize, u64)) -> i32 {
     if let Some((ev, _)) = single_producer {
         extra.push(("single_producer_check_on_the_real_daemon", ev));
     }
+    if prop == Prop::C02 {
+        // ... and about ONE caller per reader (common/apiprobe.rs)
+        let (premise, torn) = crate::common::apiprobe::single_caller_premise(&base);
+        if let Some(t) = torn {
+            agg.add("C02:client-shared-between-threads".into(), 0, t, json!({"engine": "seqmc", "directed": "single-caller premise (common/apiprobe.rs)", "observed": premise, "calls": []}));
+        }
+        extra.push(("single_caller_premise", premise));
+    }
     if prop == Prop::C04 {
         let multi: Vec<&Work> = plans.iter().flat_map(|p| p.works.iter()).collect();
         let wv = writer_oracles_c04(&multi, &mut agg);
